@@ -90,15 +90,24 @@ def roundtrip_path(run, f, dom, pth, sh):
 
 
 def roundtrip_static(run, db):
+    """the requested method reaches both stages -- decided on the values bound to the stage routines' parameters (however passed)."""
+    from .common import capture_calls
     f = db.func(P + 'to_fpm_and_back')
-    # method passed through to both stages
-    calls = [n for n in walk_no_nested(f.node) if isinstance(n, ast.Call) and ast.unparse(n.func) in ('focus_fixed_sampling', 'unfocus_fixed_sampling')]
-    for c in calls:
-        kw = {k.arg: ast.unparse(k.value) for k in c.keywords}
-        run.check(kw.get('method') == 'method', 'C05.roundtrip', f.qual, ast.unparse(c.func) + ' method', 'method passed through',
-                  '%s is not given the requested method' % ast.unparse(c.func), f.loc(c))
-    if len(calls) != 2:
-        raise AnalysisError('to_fpm_and_back: expected one focus and one unfocus call')
+    it, dom = K.mk(db, {})
+    stages = {P + 'focus_fixed_sampling', P + 'unfocus_fixed_sampling'}
+    paths, calls = capture_calls(it, dom, f, lambda: {'wavefunction': dom.array('ary', 'n0', 'n1'), 'dx': dom.sym('dx'), 'wavelength': dom.sym('wavelength'), 'efl': dom.sym('efl'),
+                                                       'fpm': dom.array('fpm', 'M0', 'M1'), 'fpm_dx': dom.sym('fpm_dx'), 'method': dom.sym('METHOD'), 'shift': Tup([Const(0), Const(0)]),
+                                                       'return_more': Const(False)},
+                                 stages, lambda fi, b: dom.array(fi.name, 'M0', 'M1') if fi.name.startswith('focus') else dom.array(fi.name, 'n0', 'n1'))
+    seen = set()
+    for fi, b, node, conds in calls:
+        m = b.get('method')
+        ok = m is not None and dom.rat(m) is not None and dom.rat(m).key() == 'METHOD'
+        seen.add(fi.name)
+        run.check(ok, 'C05.roundtrip', f.qual, fi.name + ' method', 'method passed through',
+                  '%s is not given the requested method (it receives %r)' % (fi.name, m), f.loc(node))
+    if seen != {'focus_fixed_sampling', 'unfocus_fixed_sampling'}:
+        raise AnalysisError('to_fpm_and_back: expected one focus and one unfocus stage, saw %s' % sorted(seen))
 
 
 def babinet_rules(run, db):
